@@ -273,6 +273,23 @@ func runProp(t *testing.T, id string, scenarios func(batch int) []Scenario, rule
 		}
 		return
 	}
+	// schedules beyond the quick bound that once exposed a defect (F23): executed directly; if the
+	// instrumented code has drifted so that the prefix no longer fits, the run is simply not counted
+	for _, rs := range regressionSchedules[id] {
+		for _, sc := range scenarios(rs.Batch) {
+			if sc.Name == rs.Scenario {
+				if sh, _ := shardEnv(); sh != 0 {
+					continue
+				}
+				run.Inflight(0, rs)
+				x, _ := execute(t, run, sc, rs.Schedule, false)
+				if !x.Diverged {
+					classify(run, sc, x, rs.Schedule)
+					run.AddEval(1)
+				}
+			}
+		}
+	}
 	claimed := vk.Pick(run, 1, 2)
 	run.Set("preemption_bound_claimed", claimed)
 	batches := []int{1, 3}
@@ -316,6 +333,12 @@ func runProp(t *testing.T, id string, scenarios func(batch int) []Scenario, rule
 	run.AddStates(total)
 	run.Set("per_scenario", per)
 	_ = os.Getenv
+}
+
+var regressionSchedules = map[string][]schedCase{
+	"C07": {
+		{Scenario: "SL3-adjacent-heads-growing-one-pending-range", Batch: 1, Schedule: []int{0, 0, 0, 0, 0, 0, 0, 0, 0, 0, 0, 0, 0, 0, 0, 0, 0, 0, 0, 0, 1, 0, 0, 0, 0, 0, 0, 0, 0, 0, 0, 0, 0, 0, 0, 0, 0, 0, 0, 0, 0, 0, 0, 0, 0, 0, 0, 0, 0, 0, 0, 0, 0, 0, 0, 0, 0, 0, 0, 0, 0, 0, 0, 0, 0, 1, 0, 0, 0, 0, 0, 0, 0, 0, 0, 1}},
+	},
 }
 
 func TestC03(t *testing.T) {
